@@ -26,128 +26,12 @@ func init() {
 }
 
 func runSnapTicker(c *Ctx) {
-	defer func() {
-		// replicated groups, concurrent writers, snapshots requested on every replica all the time
-		for i, n := 0, c.Pick(2, 10); i < n; i++ {
-			streamChild(c, 5*time.Minute, "C04", "snapload", fmt.Sprint(c.Seed*100+uint64(i)), c.Tier)
-		}
-	}()
-	c.Stats.Rule = "(a) snapshots requested every few ms on every replica of a 2-3 replica partition while 4 writers write through the leader: every stored snapshot = the state after exactly the log entries up to its index (entries recorded by the harness's log-store wrapper), replicas agree, and all replicas restarted from snapshot + suffix hold every acknowledged write; (b) one history: a single-node partition applies more than 5000 writes and keeps writing across the real 10 s snapshot tick; race detector on; then restart from the stored snapshot plus the log suffix; non-trivial = the ticker did store a snapshot"
-	c.Begin("snapshot tick under load")
-	defer c.End()
-	cl := newSimCluster(1)
-	cl.enableCrashes()
-	defer cl.Close()
-	dsId, err := cl.createDataset(1, 2, 1, 1, pb.Space_Euclidean)
-	if err != nil {
-		c.Note("setup failed: %v", err)
-		return
-	}
-	n := cl.nodes[1]
-	r := NewRng(c.Seed)
-	ref := map[int]crefItem{}
-	var done []crashOp // every answered write, in order: one log entry each
-	ctx := context.Background()
-	start := time.Now()
-	ops := 0
-	g := cl.dataset(1, dsId).VerifPartitionAt(0).Raft()
-	snapAt := func() uint64 {
-		w, ok := g.VerifWAL().(*crashWAL)
-		if !ok {
-			return 0
-		}
-		s, _ := w.Snapshot()
-		return s.Metadata.Index
-	}
-	// write until the ticker has stored a snapshot and a good second beyond it (at most 40 s)
-	var seenSnap time.Time
-	for time.Since(start) < 40*time.Second {
-		script := genCrashScript(r.Fork(), 200)
-		for i := range script {
-			o := &script[i]
-			if o.kind == "snap" {
-				continue
-			}
-			octx, cancel := context.WithTimeout(ctx, 5*time.Second)
-			e := doCrashOp(octx, n, dsId, o)
-			cancel()
-			if e == nil || classify(e) == "exists" || classify(e) == "notfound" {
-				applyRef(ref, *o)
-				done = append(done, *o)
-				ops++
-			} else {
-				c.Note("write failed: %v", e)
-			}
-		}
-		if seenSnap.IsZero() && snapAt() > 0 {
-			seenSnap = time.Now()
-		}
-		if !seenSnap.IsZero() && time.Since(seenSnap) > 1500*time.Millisecond {
-			break
-		}
-	}
-	si := snapAt()
-	c.OpLocal("%d writes in %s; the ticker stored a snapshot at index %d", ops, time.Since(start).Round(time.Millisecond), si)
-	if si > 0 {
-		c.Nontrivial("ticker-snapshot")
-	} else {
-		c.Note("the snapshot ticker did not fire within the run (%d writes)", ops)
-	}
-	// the stored snapshot is the state after a prefix of the log: exactly the entries up to its index
-	if w, ok := g.VerifWAL().(*crashWAL); ok && si > 0 && len(done) == ops {
-		sn, _ := w.Snapshot()
-		last := g.VerifStatus().Applied
-		offset := int(last) - ops // membership and election entries in front of the writes
-		upto := int(sn.Metadata.Index) - offset
-		if offset >= 0 && upto >= 0 && upto <= len(done) {
-			at := map[int]crefItem{}
-			for i := 0; i < upto; i++ {
-				applyRef(at, done[i])
-			}
-			p := storage.VerifNewPartition(2, pb.Space_Euclidean)
-			if err, pan := p.Restore(sn.Data); err != nil || pan != nil {
-				c.Violate("C04", "C04/snapshot-unreadable", fmt.Sprintf("the snapshot stored by the ticker cannot be loaded: %v %v", err, pan), c.History())
-			} else {
-				m := map[int]crefItem{}
-				for _, v := range p.Index().VerifContents() {
-					m[int(v.Id[0])|int(v.Id[1])<<8] = crefItem{int(v.Vector[0]), v.Metadata}
-				}
-				if got, want := refText(m), refText(at); got != want {
-					c.Violate("C04", "C04/snapshot-is-not-a-log-prefix", fmt.Sprintf("the snapshot stored at index %d (= after %d of the %d writes) holds [%s]; the state after exactly those writes is [%s]", sn.Metadata.Index, upto, ops, got, want), c.History())
-				}
-				c.OpLocal("snapshot at index %d = state after %d writes: checked", sn.Metadata.Index, upto)
-			}
-		} else {
-			c.Note("cannot align the snapshot index with the write count (last=%d ops=%d snapshot=%d)", last, ops, sn.Metadata.Index)
-		}
-	}
-	want := refText(ref)
-	if got, _ := contentsOf(cl, 1, dsId); got != want {
-		c.Violate("C04", "C04/contents-differ", fmt.Sprintf("before the restart the node holds [%s], the acknowledged history gives [%s]", got, want), c.History())
-	}
-	// restart: stored snapshot + replay of the suffix
-	n.ctl.kill()
-	if _, err := cl.restartNode(1); err != nil {
-		c.Violate("C04", "C04/restart-fails", err.Error(), c.History())
-		return
-	}
-	cl.injectClients(dsId)
-	d := cl.dataset(1, dsId)
-	if d == nil || !waitFor(20*time.Second, func() bool { return d.VerifPartitionAt(0).HasRaft() }) {
-		c.Violate("C04", "C04/restart-fails", "the partition's raft group was not loaded after the restart", c.History())
-		return
-	}
-	d.VerifPartitionAt(0).Raft().VerifCampaign()
-	var got string
-	ok := waitFor(30*time.Second, func() bool {
-		got, _ = contentsOf(cl, 1, dsId)
-		return got == want
-	})
-	if !ok {
-		c.Violate("C04", "C04/snapshot-plus-suffix-differs", fmt.Sprintf("after a restart from the ticker's snapshot (index %d) plus the log suffix the node holds [%s]; the acknowledged history gives [%s]", si, got, want), c.History())
+	c.Stats.Rule = "child processes, race detector on. (a) on demand: snapshots requested every few ms on every replica of a 2-3 replica partition while 4 writers write through node 1; (b) ticker: a single-replica partition, 4 writers, more than 5000 writes, the real 10 s snapshot tick fires under that load. In both: every stored snapshot = the state after exactly the log entries up to its index (entries recorded by the harness's log-store wrapper), the running replicas hold the acknowledged history, and so do all replicas restarted from snapshot + suffix; non-trivial = a snapshot was stored under load"
+	streamChild(c, 5*time.Minute, "C04", "snapload", fmt.Sprint(c.Seed*100+99), c.Tier, "ticker")
+	for i, n := 0, c.Pick(2, 10); i < n; i++ {
+		streamChild(c, 5*time.Minute, "C04", "snapload", fmt.Sprint(c.Seed*100+uint64(i)), c.Tier, "ondemand")
 	}
 }
-
 
 // ---------------------------------------------------------------- snapshots under replicated load
 
@@ -182,16 +66,24 @@ func partText(p *storage.VerifPartition) string {
 	return refText(m)
 }
 
-// child: snapload <seed> <tier>
+// child: snapload <seed> <tier> <ondemand|ticker>
 func childSnapLoad(args []string) {
 	var seed uint64
 	fmt.Sscan(args[0], &seed)
 	thorough := len(args) > 1 && args[1] == "thorough"
+	ticker := len(args) > 2 && args[2] == "ticker"
 	out := cout
 	defer out.Done()
 	r := NewRng(seed)
 	N := 2 + r.Intn(2)
-	out.Begin(fmt.Sprintf("snapshots under load, %d replicas, seed %d", N, seed))
+	if ticker {
+		N = 1
+	}
+	if ticker {
+		out.Begin(fmt.Sprintf("the real snapshot tick under load, 1 replica, seed %d", seed))
+	} else {
+		out.Begin(fmt.Sprintf("snapshots on demand under load, %d replicas, seed %d", N, seed))
+	}
 	defer out.End()
 	cl := newSimCluster(N)
 	cl.enableCrashes()
@@ -239,6 +131,7 @@ func childSnapLoad(args []string) {
 	}
 	res := make([]wres, W)
 	stop := make(chan struct{})
+	stopWriters := make(chan struct{})
 	var wg, sg sync.WaitGroup
 	for w := 0; w < W; w++ {
 		res[w] = wres{ref: map[int]crefItem{}, uncertain: map[int]bool{}}
@@ -248,16 +141,36 @@ func childSnapLoad(args []string) {
 			st := &res[w]
 			var own []int
 			next := 0
-			for i := 0; i < per; i++ {
+			for i := 0; i < per || ticker; i++ {
+				if ticker {
+					select {
+					case <-stopWriters:
+						return
+					default:
+					}
+				}
 				var o crashOp
+				if len(own) == 0 && next >= 15999 {
+					return
+				}
+				// the live set of a writer stays around 25 items: mostly inserts below that, mostly updates
+				// and removals above (the ticker scenario runs for tens of thousands of writes; the
+				// simulated nodes' in-memory Badger holds values inline and takes at most ~150 KB per
+				// write batch, snapshot included)
+				pIns, pDel := 7, 1
+				if len(own) >= 25 {
+					pIns, pDel = 1, 4
+				}
 				switch k := r.Intn(10); {
-				case k < 7 || len(own) == 0:
-					o = crashOp{kind: "ins", ids: []int{w*4000 + next}, vec: r.Intn(50), md: fmt.Sprintf("w=%d", w)}
+				case (k < pIns || len(own) == 0) && next < 15999:
+					o = crashOp{kind: "ins", ids: []int{w*16000 + next}, vec: r.Intn(50), md: fmt.Sprintf("w=%d", w)}
 					next++
-				case k < 8:
+				case k < pIns+pDel && len(own) > 0:
 					o = crashOp{kind: "del", ids: []int{own[r.Intn(len(own))]}}
-				default:
+				case len(own) > 0:
 					o = crashOp{kind: "upd", ids: []int{own[r.Intn(len(own))]}, vec: r.Intn(50), md: fmt.Sprintf("u=%d", i)}
+				default:
+					continue
 				}
 				ctx, cancel := context.WithTimeout(context.Background(), 5*time.Second)
 				e := doCrashOp(ctx, cl.nodes[1], dsId, &o)
@@ -289,7 +202,32 @@ func childSnapLoad(args []string) {
 	}
 	snaps := 0
 	var smu sync.Mutex
+	if ticker {
+		// no requests: wait for the group's own 10 s tick (it stores a snapshot once more than 5000
+		// entries were applied), keep writing a second beyond it, at most 45 s in all
+		go func() {
+			start := time.Now()
+			var seen time.Time
+			for time.Since(start) < 45*time.Second {
+				time.Sleep(20 * time.Millisecond)
+				rec := recOf(1)
+				rec.mu.Lock()
+				n := len(rec.created)
+				rec.mu.Unlock()
+				if n > 0 && seen.IsZero() {
+					seen = time.Now()
+				}
+				if !seen.IsZero() && time.Since(seen) > time.Second {
+					break
+				}
+			}
+			close(stopWriters)
+		}()
+	}
 	for _, id := range cl.ids {
+		if ticker {
+			break
+		}
 		sg.Add(1)
 		go func(id uint64) {
 			defer sg.Done()
@@ -325,6 +263,16 @@ func childSnapLoad(args []string) {
 		acked += res[w].acked
 	}
 	out.Local("%d acknowledged writes by %d writers, %d snapshot requests answered, %d ids uncertain", acked, W, snaps, len(uncertain))
+	if ticker {
+		rec := recOf(1)
+		rec.mu.Lock()
+		n := len(rec.created)
+		rec.mu.Unlock()
+		if n == 0 {
+			out.Count("ticker-did-not-fire")
+			out.Local("the snapshot ticker stored nothing within the run (%d writes)", acked)
+		}
+	}
 	out.Count("trial")
 	// (1) every snapshot a replica stored is the state after exactly the entries up to its index
 	checked, gaps := 0, 0
@@ -426,7 +374,8 @@ func childSnapLoad(args []string) {
 	for _, id := range cl.ids {
 		id := id
 		var bad string
-		if !waitFor(30*time.Second, func() bool { bad = holds(contents(id)); return bad == "[]" }) {
+		// (the replay of the suffix takes its time: allow for it in proportion to the history)
+		if !waitFor(30*time.Second+time.Duration(acked/2000)*time.Second, func() bool { bad = holds(contents(id)); return bad == "[]" }) {
 			out.Violate("C04", "C04/snapshot-plus-suffix-differs", fmt.Sprintf("node %d restarted from its stored snapshot plus the log suffix differs from the acknowledged history on ids %s", id, bad))
 		}
 	}
